@@ -35,11 +35,7 @@ for it in range(N):
         t = bt.Backtest(s, data, integer_positions=k[4], commissions=COMM[k[3]], initial_capital=float(10 ** rs.randint(3, 7)))
         res = bt.run(t)
         outs = [t.strategy.prices, t.strategy.values, t.weights, t.security_weights, t.positions, t.herfindahl_index, t.turnover, res.prices, t.strategy.outlays, res.get_weights(), res.get_security_weights()]
-        try:
-            outs.append(res.get_transactions())
-        except Exception as e:
-            if len(t.positions) and float(np.abs(t.positions.to_numpy()).sum()) > 0:
-                raise
+        outs.append(res.get_transactions())
         for n in t.strategy.members:
             outs += [n.values, n.prices]
         ok = all(finite_frame(o) for o in outs) and np.all(np.isfinite(t.strategy.prices.to_numpy())) and np.all(np.isfinite(t.strategy.values.to_numpy()))
